@@ -186,13 +186,77 @@ def coq_files():
     return [os.path.relpath(f, COQ) for f in fs]
 
 
+# Gen/<name>.v -> the entry point of tools/gen_rustfn.py that writes it from the repository's source.  (Gen/WireGen.v
+# and Gen/LockProgs.v have one importer each - Props/C19.v, Props/C20.v - whose own hook writes them.)
+GENERATED_BY = {
+    "VelocityGen": "generate_velocity", "PaymentsGen": "generate_payments", "EnforcementGen": "generate_enforcement",
+    "MonitorGen": "generate_monitor", "TxUtilGen": "generate_txutil", "CommitmentPolicyGen": "generate_commitment_policy",
+    "EnforcementRulesGen": "generate_enforcement_rules", "SweepGen": "generate_sweep",
+    "MutualCloseGen": "generate_mutual_close", "OnchainGen": "generate_onchain",
+    "NodePaymentsGen": "generate_node_payments", "PaymentSummariesGen": "generate_payment_summaries",
+    "KvvGen": "generate_kvv",
+}
+_REQ = re.compile(r"\bRequire\s+(?:Import\s+|Export\s+)?([\w.\s']+?)\.(?:\s|$)")
+
+
+def generated_deps(targets):
+    """Names of the Gen/*.v files that the given .vo targets (all files when None) import, directly or through other
+    files of the development (read from the Require lines; a superset is harmless)."""
+    by_mod = {}
+    for f in coq_files():
+        by_mod[f[len("theories/"):-2].replace("/", ".")] = f
+    todo = [t[:-1] for t in targets] if targets else list(by_mod.values())
+    seen, gens = set(), set()
+    while todo:
+        f = todo.pop()
+        if f in seen or not os.path.exists(os.path.join(COQ, f)):
+            continue
+        seen.add(f)
+        txt = open(os.path.join(COQ, f)).read()
+        for m in _REQ.finditer(txt):
+            for w in m.group(1).split():
+                w = w[4:] if w.startswith("VLS.") else w
+                if w in by_mod:
+                    todo.append(by_mod[w])
+                    if w.startswith("Gen."):
+                        gens.add(w[4:])
+    return sorted(gens)
+
+
+def regenerate_deps(targets):
+    """Every generated model file the targets rest on is written again from REPO's source (only when its text changes), so
+    that what is compiled is what the source says on this run whatever an earlier run, another check or the committed
+    copy left in coq/theories/Gen.  Returns the error texts of translators that could not read their source; the file of
+    such a translator is replaced by one that does not compile, so that nothing is proved against a stale translation."""
+    sys.path.insert(0, os.path.dirname(os.path.abspath(__file__)))
+    import gen_rustfn
+    errors = []
+    for g in generated_deps(targets):
+        fn = GENERATED_BY.get(g)
+        if fn is None:
+            continue
+        try:
+            getattr(gen_rustfn, fn)(REPO)
+        except gen_rustfn.GenError as e:
+            errors.append("tools/gen_rustfn.py %s cannot translate the source behind Gen/%s.v: %s" % (fn, g, e))
+            open(os.path.join(COQ, "theories", "Gen", g + ".v"), "w").write(
+                "(** NOT GENERATED: tools/gen_rustfn.py %s could not read the source on this run. *)\n"
+                "Definition translation_failed : True := 0.\n" % fn)
+    return errors
+
+
 def build_coq(targets=None, timeout=3000, pre=None, keep_going=False):
     """Full .vo build (no -vos) of the requested targets and everything they depend on.
     `pre`: optional callable run under the same lock before the build (a translator that
-    regenerates a .v file, e.g. tools/gen_wire.py for C19)."""
+    regenerates a .v file, e.g. tools/gen_wire.py for C19).  After it, every other generated file the targets
+    import is regenerated from REPO as well (regenerate_deps)."""
     with Lock("coq"):
         if pre is not None:
             pre()
+        gen_errors = regenerate_deps(targets)
+        if gen_errors and not keep_going:
+            log("[coq build %s: translator failed]" % " ".join(targets or ["all"]))
+            return False, "\n".join(gen_errors)
         files = coq_files()
         listing = "\n".join(files)
         stamp = os.path.join(COQ, ".files")
